@@ -2,7 +2,7 @@
 //
 // Sanitizer handling: the harness is compiled with -fsanitize-recover=address,undefined and run
 // with ASAN_OPTIONS=halt_on_error=0, so a report does not kill the sweep.  The runtime calls
-// __asan_on_error / __ubsan_on_report (defined here) which bump g_san and keep a short
+// __asan_on_error / __ubsan_on_report (harness.cpp) which bump g_san and keep a short
 // description; every risky call is bracketed by Guard, which turns "g_san changed during this
 // call" into a @VIOL line carrying the exact input.  Both runtimes report one faulting code
 // location only once per process (ASan: suppress_equal_pcs, UBSan: per-location dedup), so the
@@ -26,52 +26,23 @@
 
 namespace c19 {
 
-// ---------------------------------------------------------------- sanitizer / crash hooks
-static volatile int g_san = 0;            // number of sanitizer reports so far
-static char g_san_desc[400] = "";         // description of the latest report
-static const char *g_op = "startup";      // call being evaluated (for the fatal path)
-static const uint8_t *g_in = nullptr; static size_t g_inlen = 0; static long g_cap = -1;
-
-inline void hexstr(char *o, size_t osz, const uint8_t *p, size_t n) {
-  size_t w = 0; for (size_t i = 0; i < n && w + 3 < osz; i++) w += (size_t)snprintf(o + w, osz - w, "%02x", p[i]); o[w] = 0; }
-
-static void emit_fatal(const char *why) {
-  char hx[2100]; hexstr(hx, sizeof hx, g_in ? g_in : (const uint8_t *)"", g_in ? (g_inlen > 1000 ? 1000 : g_inlen) : 0);
-  char b[2600]; int n = snprintf(b, sizeof b, "\n@VIOL sig=%s:crash-%s :: %s in=hex:%s len=%zu cap=%ld\n", g_op, why, g_op, hx, g_inlen, g_cap);
-  if (n > 0) { ssize_t r = write(1, b, (size_t)n); (void)r; }
-}
-static void on_fatal(int sig) {
-  emit_fatal(sig == SIGSEGV ? "SIGSEGV" : sig == SIGABRT ? "SIGABRT" : sig == SIGFPE ? "SIGFPE" : sig == SIGBUS ? "SIGBUS" : "signal"); _exit(1); }
-inline void install_handlers() {
-  signal(SIGSEGV, on_fatal); signal(SIGABRT, on_fatal); signal(SIGFPE, on_fatal); signal(SIGBUS, on_fatal);
-  std::set_terminate([] { emit_fatal("uncaught-exception"); _exit(1); });
-  setvbuf(stdout, nullptr, _IOLBF, 0);
-}
-}  // namespace c19
-
-extern "C" void __ubsan_get_current_report_data(const char **kind, const char **msg, const char **file, unsigned *line, unsigned *col, char **addr);
-extern "C" void __asan_on_error() {
-  c19::g_san++;
-  const char *d = __asan_get_report_description();
-  snprintf(c19::g_san_desc, sizeof c19::g_san_desc, "asan:%s:%s%zu", d ? d : "?", __asan_get_report_access_type() ? "WRITE" : "READ", __asan_get_report_access_size());
-}
-extern "C" void __ubsan_on_report() {
-  c19::g_san++;
-  const char *k = "?", *m = "?", *f = "?"; unsigned l = 0, c = 0; char *a = nullptr;
-  __ubsan_get_current_report_data(&k, &m, &f, &l, &c, &a);
-  const char *base = strrchr(f ? f : "?", '/'); base = base ? base + 1 : (f ? f : "?");
-  snprintf(c19::g_san_desc, sizeof c19::g_san_desc, "ubsan:%s:%s:%u:[%s]", k ? k : "?", base, l, m ? m : "?");
-  for (char *p = c19::g_san_desc; *p; p++) if (*p == ' ') *p = '_';
-}
-
-namespace c19 {
+// ---------------------------------------------------------------- sanitizer / crash hooks (defined in harness.cpp)
+extern volatile int g_san;           // number of sanitizer reports so far
+extern char g_san_desc[400];         // description of the latest report
+extern const char *g_op;             // call being evaluated (for the fatal path)
+extern const uint8_t *g_in; extern size_t g_inlen; extern long g_cap;
+void install_handlers();
 
 // ---------------------------------------------------------------- counters, violations, deadline
 struct Counters { unsigned long long states = 0, transitions = 0, executions = 0, violations = 0; };
-static Counters C;
-static std::map<std::string, unsigned> g_sig_count;
-static int g_samples = 0;
-static double g_deadline = 1e18; static bool g_capped = false;
+extern Counters C;
+extern std::map<std::string, unsigned> g_sig_count;
+extern int g_samples;
+extern double g_deadline; extern bool g_capped;
+extern std::string g_tier; extern int g_part, g_nparts;
+extern std::map<std::string, unsigned long long> g_outcomes;
+inline bool thorough() { return g_tier == "thorough"; }
+inline void outcome(const std::string &s) { g_outcomes[s]++; }
 
 inline double now_s() { using namespace std::chrono; return duration_cast<duration<double>>(steady_clock::now().time_since_epoch()).count(); }
 inline void init_deadline(double dflt) { const char *e = getenv("VERIF_DEADLINE_S"); g_deadline = now_s() + (e ? atof(e) : dflt); }
@@ -175,5 +146,28 @@ inline void for_all_strings(const std::vector<uint8_t> &a, size_t len, int part,
     }
   }
 }
+
+// ------------------------------------------------------------------ encoder input domain
+// D_enc = all byte strings of length 0..2 over 0..255 (65 793)
+//       + length 3 over A20 (8 000)            [thorough: over all 256 values, 16 777 216]
+//       + lengths 4..66 x 6 patterns           [thorough: 4..300]
+inline void for_enc_inputs(const std::function<void(const uint8_t *, size_t)> &f0) {
+  std::function<void(const uint8_t *, size_t)> f = [&](const uint8_t *p, size_t n) { if (!out_of_time()) f0(p, n); };
+  std::vector<uint8_t> full = alphabet("FULL"), a3 = alphabet(thorough() ? "FULL" : "A20");
+  for (size_t len = 0; len <= 2 && !g_capped; len++) for_all_strings(full, len, g_part, g_nparts, f);
+  if (!g_capped) for_all_strings(a3, 3, g_part, g_nparts, f);
+  size_t maxlen = thorough() ? 300 : 66;
+  for (size_t L = 4; L <= maxlen && !g_capped; L++) { if ((int)(L % (size_t)g_nparts) != g_part) continue;
+    for (int p = 0; p < kPatterns; p++) { std::vector<uint8_t> v = pattern(p, L); f(v.data(), L); } }
+}
+// hostile decoder inputs derived from valid encodings: every truncation (proper prefix) of enc, and
+// (for |enc| <= 12) every single-byte substitution by an A20 value.
+inline void for_derived(const std::string &enc, const std::function<void(const uint8_t *, size_t)> &f) {
+  for (size_t k = 0; k < enc.size(); k++) f((const uint8_t *)enc.data(), k);
+  if (enc.size() <= 12) for (size_t i = 0; i < enc.size(); i++) for (int a = 0; a < 20; a++) { std::string m = enc; if ((uint8_t)m[i] == A20[a]) continue; m[i] = (char)A20[a]; f((const uint8_t *)m.data(), m.size()); }
+}
+inline bool has_high(const uint8_t *s, size_t n) { for (size_t i = 0; i < n; i++) if (s[i] >= 0x80) return true; return false; }
+
+inline int hexval(uint8_t c) { if (c >= '0' && c <= '9') return c - '0'; if (c >= 'a' && c <= 'f') return c - 'a' + 10; if (c >= 'A' && c <= 'F') return c - 'A' + 10; return -1; }
 
 }  // namespace c19
